@@ -4,6 +4,13 @@
  * above-right (inside the tile) are reconstructed -- intra prediction and CDF/neighbour context read them. */
 #include "verif.h"
 #include <stdint.h>
+#ifdef EDGE   /* variant: the tile width is computed by the real statement from a frame whose last superblock is partial */
+#include "EbDefinitions.h"
+#include "EbSvtAv1Dec.h"
+#include "EbDecHandle.h"
+#include "EbDecProcess.h"
+#include "EbDecProcessFrame.h"
+#endif
 #ifndef MIN
 #define MIN(a, b) ((a) < (b) ? (a) : (b))
 #endif
@@ -19,11 +26,25 @@ static uint32_t completed[PR]; static int col[PR]; static int done[PR][PW + 1];
    static void recon_mark_done(int32_t sb_col, uint32_t *sb_completed_in_row); */
 void harness(void) {
     for (int r = 0; r < PR; r++) { completed[r] = 0; col[r] = 0; }
+    int32_t wd = PW;
+#ifdef EDGE
+    {   /* a tile starting at column 0 that covers PW superblock columns, the last one possibly partial */
+        EbDecHandle *h = (EbDecHandle *)malloc(sizeof *h); TilesInfo *ti = (TilesInfo *)malloc(sizeof *ti); DecModCtxt *dm = (DecModCtxt *)malloc(sizeof *dm); SeqHeader *sq = (SeqHeader *)malloc(sizeof *sq);
+        V_ASSUME(h && ti && dm && sq);
+        int32_t sbl = (int32_t)vin_range(6, 7), sb_mi = 1 << (sbl - MI_SIZE_LOG2);
+        int32_t mi_cols = (PW - 1) * sb_mi + (int32_t)vin_range(1, 32); V_ASSUME(mi_cols <= PW * sb_mi);
+        dm->seq_header = sq; dm->dec_handle_ptr = h; sq->sb_size_log2 = (uint8_t)sbl; sq->sb_mi_size = (uint8_t)sb_mi;
+        h->frame_header.mi_cols = (uint32_t)mi_cols;
+        ti->tile_col_start_mi[0] = 0; ti->tile_col_start_mi[1] = vinbool() ? (uint16_t)mi_cols : (uint16_t)(PW * sb_mi);
+        /* the row worker visits ceil(tile end / superblock) columns: that is PW by construction */
+        wd = recon_tile_wd(dm, ti, 0, h, sbl - MI_SIZE_LOG2);
+    }
+#endif
     for (int s = 0; s < PR * PW; s++) {
         int r = (int)vin_range(0, PR - 1);
         V_ASSUME(col[r] < PW);
         int c = col[r];
-        int ok = recon_sync_try(r, c, PW, r ? (volatile int32_t *)&completed[r - 1] : NULL);
+        int ok = recon_sync_try(r, c, wd, r ? (volatile int32_t *)&completed[r - 1] : NULL);
         if (r && col[r - 1] == PW) V_ASSERT(ok, "a row whose upper row is complete is never blocked (no deadlock)");
         V_ASSUME(ok);
         if (r) {
